@@ -486,7 +486,7 @@ class sptensor:
 
         # Check for the case where we accumulate over *all* dimensions
         if remdims.size == 0:
-            result = function_handle(self.vals.transpose()[0])
+            result = function_handle(self.vals.flatten())
             if isinstance(result, np.generic):
                 result = result.item()
             return result
@@ -555,6 +555,11 @@ class sptensor:
 
         if i_0 == i_1:
             assert False, "Must contract along two different dimensions"
+
+        # All-zero tensor: nothing to add up
+        if self.nnz == 0:
+            remshape = tuple(np.delete(np.array(self.shape), [i_0, i_1]))
+            return 0.0 if self.ndims == 2 else ttb.sptensor(shape=remshape)
 
         # Easy case - returns a scalar
         if self.ndims == 2:
@@ -1707,6 +1712,9 @@ class sptensor:
         [0, 2, 2] = 27
         """
         dims, _ = tt_dimscheck(self.ndims, dims=dims)
+
+        if self.nnz == 0:
+            return self.copy()
 
         if isinstance(factor, ttb.tensor):
             shapeArray = np.array(self.shape)
